@@ -109,9 +109,17 @@ impl BackwardEngine {
         let mut goal = QueryParser::parse(query_str)
             .map_err(|e| crate::errors::RuleEngineError::ParseError { message: e })?;
 
+        // The answer depends on the facts as well as on the query text, so the
+        // memoization key covers both (computed now: a successful search changes the facts)
+        let cache_key = if self.config.enable_memoization {
+            Some(Self::memo_key(query_str, facts))
+        } else {
+            None
+        };
+
         // Check cache if memoization enabled
-        if self.config.enable_memoization {
-            if let Some(cached) = self.goal_manager.is_cached(query_str) {
+        if let Some(key) = &cache_key {
+            if let Some(cached) = self.goal_manager.is_cached(key) {
                 return Ok(if cached {
                     QueryResult::success(
                         goal.bindings.to_map(), // Convert Bindings to HashMap
@@ -157,9 +165,8 @@ impl BackwardEngine {
         };
 
         // Cache result if enabled
-        if self.config.enable_memoization {
-            self.goal_manager
-                .cache_result(query_str.to_string(), search_result.success);
+        if let Some(key) = cache_key {
+            self.goal_manager.cache_result(key, search_result.success);
         }
 
         // Build query result
@@ -181,6 +188,54 @@ impl BackwardEngine {
         } else {
             QueryResult::failure(self.find_missing_facts(&goal), stats)
         })
+    }
+
+    /// Memoization key of a query: the query text plus a fingerprint of the facts
+    /// it is asked about (canonical rendering, independent of map iteration order).
+    fn memo_key(query_str: &str, facts: &Facts) -> String {
+        use std::hash::{Hash, Hasher};
+
+        fn render(value: &crate::types::Value, out: &mut String) {
+            use crate::types::Value;
+            match value {
+                Value::Object(map) => {
+                    let mut keys: Vec<&String> = map.keys().collect();
+                    keys.sort();
+                    out.push('{');
+                    for key in keys {
+                        out.push_str(key);
+                        out.push(':');
+                        render(&map[key], out);
+                        out.push(',');
+                    }
+                    out.push('}');
+                }
+                Value::Array(items) => {
+                    out.push('[');
+                    for item in items {
+                        render(item, out);
+                        out.push(',');
+                    }
+                    out.push(']');
+                }
+                Value::Number(n) => out.push_str(&format!("f{:x}", n.to_bits())),
+                other => out.push_str(&format!("{:?}", other)),
+            }
+        }
+
+        let all = facts.get_all_facts();
+        let mut keys: Vec<&String> = all.keys().collect();
+        keys.sort();
+        let mut text = String::new();
+        for key in keys {
+            text.push_str(key);
+            text.push('=');
+            render(&all[key], &mut text);
+            text.push(';');
+        }
+        let mut hasher = std::collections::hash_map::DefaultHasher::new();
+        text.hash(&mut hasher);
+        format!("{}#{:016x}", query_str, hasher.finish())
     }
 
     /// Find all candidate rules that could prove a goal
